@@ -58,3 +58,56 @@ func VerifHarness_C13_SellWithOrders() {
 	verifAssert("C13:coin0-accounted", new(big.Int).Add(gain0, paidOwners).Cmp(in) == 0)
 	verifNote("out", out)
 }
+
+// C13/C14 (buy side): a taker buys an arbitrary amount of coin 1 from a pool
+// with a concrete book of resting orders.  Whatever the amount that the quote
+// accepts: no panic, the reserve product does not decrease, the pool is never
+// emptied of either coin, and the taker pays for everything it takes (the
+// payout is covered by what pool and order owners receive at their prices).
+func VerifHarness_C13_BuyWithOrders() {
+	s := verifNewSwapV2()
+	r0, r1 := verifE18(10000), verifE18(10000)
+	p := verifSeedPool(s, 1, 2, r0, r1)
+	owner1, owner2 := types.Address{1}, types.Address{2}
+	n := verifConfig("orders")
+	escrow := big.NewInt(0)
+	if n >= 1 {
+		p.AddOrder(verifE18(1000), verifE18(900), owner1, 1)
+		escrow.Add(escrow, verifE18(900))
+	}
+	if n >= 2 {
+		p.AddOrder(verifE18(1000), verifE18(700), owner2, 1)
+		escrow.Add(escrow, verifE18(700))
+	}
+	if verifConfig("atPoolPrice") == 1 {
+		// an order exactly at the pool price (filled before the pool moves)
+		p.AddOrder(verifE18(500), verifE18(500), owner2, 1)
+		escrow.Add(escrow, verifE18(500))
+	}
+	out := verifBigPos("out")
+	verifAssume(out.Cmp(verifE18(20000)) <= 0)
+	k0 := new(big.Int).Mul(r0, r1)
+	quote, _ := p.CalculateSellForBuyWithOrders(out)
+	if quote == nil || quote.Sign() != 1 {
+		return
+	}
+	in, owners, _, _ := p.BuyWithOrders(out)
+	// (quote and execution are two evaluations of the same division-heavy
+	// formula: their equality is unknown to the solvers here; the sell-side
+	// harness decides it for its side)
+	n0, n1 := p.Reserves()
+	verifAssert("C13:k-nondecreasing", new(big.Int).Mul(n0, n1).Cmp(k0) >= 0)
+	verifAssert("C13:reserve1>0", n1.Sign() > 0)
+	verifAssert("C13:reserve0>0", n0.Sign() > 0)
+	verifAssert("C13:out<=pool+escrow", out.Cmp(new(big.Int).Add(r1, escrow)) < 0)
+	verifAssert("C13:taker-pays-something", in.Sign() > 0)
+	paidOwners := big.NewInt(0)
+	for _, v := range owners {
+		paidOwners.Add(paidOwners, v)
+	}
+	// coin0: what the taker pays (net of the 0.1% burned by the caller) = pool gain + owners
+	gain0 := new(big.Int).Sub(n0, r0)
+	net := new(big.Int).Sub(in, calcCommission1000(in))
+	verifAssert("C13:coin0-accounted", new(big.Int).Add(gain0, paidOwners).Cmp(net) == 0)
+	verifNote("in", in)
+}
